@@ -235,6 +235,77 @@ theorem canon_inplace_eq_model (s : Bytes) (hs : (0 : UInt8) ∉ s) : canonInPla
     have hcs : cstr (r ++ 0 :: (junk ++ [])) = some r := cstr_holds ⟨_, rfl⟩ hrn
     simp only [hrun, hcs, Option.map_some]
 
+/-! ### shape of the result on the bytes; agreement of the two tests; fixed points; nothing is invented -/
+
+/-- **Relative, no stray slash**: a result of `canonicalize_name` does not begin with a slash (it is a relative path),
+does not end with one and has no doubled slash — stated on the bytes, not on the component list. -/
+theorem canon_no_stray_slash (s r : Bytes) (h : canonicalize s = some r) :
+    (∀ t, r ≠ SL :: t) ∧ (∀ t, r ≠ t ++ [SL]) ∧ (∀ a b, r ≠ a ++ SL :: SL :: b) := by
+  obtain ⟨_, hclean⟩ := canon_same_entry_and_clean s r h
+  rcases hclean with rfl | ⟨_, hall⟩
+  · simp
+  · have hno : ([] : Bytes) ∉ splitSlash r := fun m => (hall _ m).1 rfl
+    refine ⟨?_, ?_, ?_⟩
+    · intro t ht; subst ht; exact hno (by simp [splitSlash])
+    · intro t ht; subst ht; apply hno; rw [splitSlash_at_slash]; simp [splitSlash]
+    · intro a b ht; subst ht; apply hno; rw [splitSlash_at_slash]; simp [splitSlash]
+
+/-- **Every component of an accepted path is a name the file-name test accepts**: what `canonicalize_name` lets
+through consists of names `is_filename_sane` lets through — the packers' path check and the readers' name check agree. -/
+theorem canon_components_sane (s r : Bytes) (h : canonicalize s = some r) (hr : r ≠ []) :
+    ∀ c ∈ splitSlash r, c ≠ [] ∧ isFilenameSane c = true := by
+  obtain ⟨_, hclean⟩ := canon_same_entry_and_clean s r h
+  rcases hclean with rfl | ⟨_, hall⟩
+  · exact absurd rfl hr
+  · intro c hc
+    obtain ⟨h1, h2, h3, h4⟩ := hall c hc
+    exact ⟨h1, (sane_iff c).2 ⟨h2, h3, h4⟩⟩
+
+/-- … and conversely a non-empty sane name is a path `canonicalize_name` returns unchanged. -/
+theorem sane_name_is_fixed (n : Bytes) (hne : n ≠ []) (hs : isFilenameSane n = true) : canonicalize n = some n := by
+  obtain ⟨h2, h3, h4⟩ := (sane_iff n).1 hs
+  rw [canon_eq_spec]; unfold specCanon
+  have hsp : splitSlash n = [n] := splitSlash_slashFree h4
+  simp [hsp, Ne.symm h3, keep, isNE_iff.2 hne, notDot_iff.2 h2, joinSlash]
+
+/-- **Fixed points are exactly the clean paths**: `canonicalize_name` returns its argument unchanged iff the argument
+is empty or all its components are non-empty, not "." and not "..". -/
+theorem canon_fixed_iff_clean (s : Bytes) :
+    canonicalize s = some s ↔ (s = [] ∨ ∀ c ∈ splitSlash s, CleanComp c) := by
+  constructor
+  · intro h
+    obtain ⟨_, hclean⟩ := canon_same_entry_and_clean s s h
+    rcases hclean with h0 | ⟨_, hall⟩
+    · exact Or.inl h0
+    · exact Or.inr hall
+  · rintro (rfl | hall)
+    · decide
+    · rw [canon_eq_spec]; unfold specCanon
+      have hno : ¬ ([DOT, DOT] : Bytes) ∈ splitSlash s := fun m => (hall _ m).2.2.1 rfl
+      simp only [hno, if_false, Option.some.injEq]
+      have hk : (splitSlash s).filter keep = splitSlash s := by
+        apply List.filter_eq_self.2
+        intro c hc
+        obtain ⟨h1, h2, _, _⟩ := hall c hc
+        simp [keep, isNE_iff.2 h1, notDot_iff.2 h2]
+      rw [hk]; exact (splitSlash_spec s).2
+
+/-- **Canonicalisation only deletes bytes**: the result is a subsequence of the input — no byte is invented,
+reordered or changed (so in particular a NUL-free, or valid-UTF-8-continuation-free, … input stays so). -/
+theorem canon_sublist (s r : Bytes) (h : canonicalize s = some r) : r.Sublist s := by
+  obtain ⟨hr, _⟩ := canon_same_entry_and_clean s r h
+  subst hr
+  have := joinSlash_filter_sublist keep (splitSlash s)
+  rwa [(splitSlash_spec s).2] at this
+
+/-- the component-level counterpart: the kept components are a sub-list of the input's components, in order -/
+theorem canon_components_sublist (s r : Bytes) (h : canonicalize s = some r) (hr : r ≠ []) :
+    (splitSlash r).Sublist (splitSlash s) := by
+  obtain ⟨_, hclean⟩ := canon_same_entry_and_clean s r h
+  rcases hclean with rfl | ⟨hsp, _⟩
+  · exact absurd rfl hr
+  · rw [hsp]; exact List.filter_sublist
+
 /-! ### non-vacuity: concrete inputs that exercise every branch -/
 
 -- "//a/./b//c/." → "a/b/c"
@@ -269,5 +340,14 @@ example := canon_inplace_memory [47,47,97,47,46,47,98,47,47,99,47,46] (by decide
 example := (canon_inplace_memory [97,47,46,46] (by decide) [7] 10 (by decide)).1 (by decide)
 example := norm_inplace_memory [47,47,97,47,46,47,98,47,47,99,47,46] (by decide) [9] 20 (by decide)
 example := canon_inplace_eq_model [47,47,97,47,46,47,98,47,47,99,47,46] (by decide)
+
+/-! the later theorems on concrete inputs -/
+example := canon_no_stray_slash [47,47,97,47,46,47,98,47,47,99,47,46] [97,47,98,47,99] (by decide)
+example := canon_components_sane [47,47,97,47,46,47,98,47,47,99,47,46] [97,47,98,47,99] (by decide) (by decide)
+example := sane_name_is_fixed [46,46,46] (by decide) (by decide)
+example := (canon_fixed_iff_clean [97,47,98,47,99]).1 (by decide)
+example : ¬ (canonicalize [97,47,47,98] = some [97,47,47,98]) := by decide
+example := canon_sublist [47,47,97,47,46,47,98,47,47,99,47,46] [97,47,98,47,99] (by decide)
+example := canon_components_sublist [47,47,97,47,46,47,98,47,47,99,47,46] [97,47,98,47,99] (by decide) (by decide)
 
 end Sqfs.C18
